@@ -112,4 +112,33 @@ def c04(q):
     }
 
 
-PLANS = {"C01": c01, "C02": c02, "C03": c03, "C04": c04, "C15": c15, "C17": c17, "C20": c20}
+def c06(q):
+    return {
+        "level": "exploration",
+        "rule": ("cases = valid message m (first extent bytes of a reference image of a generated value, canonical or terminated FlexVec form) of every zoo shape; per message EVERY cut 0..|m| is validated "
+                 "(must be InsufficientSize, or the same content when only trailing padding is missing) and m followed by 6 suffix kinds (1 byte, another message, truncated message, 0xFF.., zeros, garbage) "
+                 "must validate to the same content and size(). evaluations = validations performed; distinct = distinct (shape, value) messages; every message is non-trivial."),
+        "exhaustive_note": "cuts are exhaustive per message (native); the message space is sampled",
+        "gates": ["messages", "prefix:err", "prefix:ok", "suffix-message:ok"],
+        "jobs": [
+            {"sub": "random", "cfgs": ["debug", "release"], "cases": 60_000 if q else 1_000_000, "ms": 30_000 if q else 300_000},
+            {"sub": "random", "cfgs": ["miri"], "cases": 300 if q else 10_000, "ms": 45_000 if q else 600_000, "lite": True, "wall": 300 if q else 1500},
+        ],
+    }
+
+
+def c19(q):
+    return {
+        "level": "exploration",
+        "rule": ("cases = valid reference image of a shape with constrained leaves, exactly one constrained field corrupted (Bool -> 2..255, enum tag -> out of range, one string byte -> invalid UTF-8) at a "
+                 "position known to the harness; oracle: rejected, with the content kind (InvalidData / InvalidEnumTag) and Error.pos inside the offending byte range computed by the reference decoder "
+                 "(any byte of a multi-byte tag, [valid_up_to, +error_len) for UTF-8). Corruptions that stay valid or become structural are skipped and counted. "
+                 "Distinct = distinct (shape, kinds along the nesting path, byte offset, corruption type)."),
+        "gates": ["corrupt:bool", "corrupt:tag", "corrupt:utf8", "depth:1", "depth:2", "depth:3", "position-correct"],
+        "jobs": [
+            {"sub": "random", "cfgs": ["debug", "release"], "cases": 150_000 if q else 3_000_000, "ms": 30_000 if q else 300_000},
+        ],
+    }
+
+
+PLANS = {"C01": c01, "C02": c02, "C03": c03, "C04": c04, "C06": c06, "C19": c19, "C15": c15, "C17": c17, "C20": c20}
